@@ -393,6 +393,18 @@ def lean_stage(ctx: Ctx, gen_modules, prop_modules, driver_modules, extra_files=
                     ctx.broke(f'audit: {nm} depends on non-standard axioms {sorted(extra)}')
             if missing:
                 ctx.broke(f'audit: #print axioms produced nothing for {missing[:5]}')
+        # thorough tier: the toolchain's independent re-checker replays the compiled property modules through the kernel
+        if good_props and not ctx.quick() and os.environ.get('FINVERIF_NO_LEANCHECKER') != '1':
+            t0 = time.time()
+            try:
+                r = subprocess.run(['lake', 'env', 'leanchecker'] + good_props, cwd=LEAN_DIR, capture_output=True, text=True,
+                                   timeout=1800)
+                ctx.cov['leanchecker_s'] = round(time.time() - t0, 1)
+                ctx.cov['leanchecker_modules'] = list(good_props)
+                if r.returncode != 0:
+                    ctx.broke('audit: leanchecker rejected the compiled property modules: ' + (r.stdout + r.stderr)[-300:])
+            except subprocess.TimeoutExpired:
+                ctx.notes.append('leanchecker did not finish within 1800 s (not counted as a failure)')
         drivers_ok = all(mod_ok.get(d) for d in driver_modules)
         if not drivers_ok:
             ctx.broke('model: the executable model (driver) no longer builds: '
